@@ -399,7 +399,7 @@ func runC15(r *core.Run) {
 	nbhdSub(r, "nbhd-spec/all+autoid", core.MustCfg("all+autoid"), func(s *core.Sub, cv *core.Conv, w []byte) { c15Generic(s, cv, w) })
 	// automatic ids switched on through every channel the API offers: added to the parser after construction, handed to the
 	// heading parsers' own constructors in a hand-built block parser list, through the generic name/value parser option
-	for _, cn := range []string{"core+autoid+via=2", "core+autoid+via=5", "all+autoid+via=5", "core+autoid+via=6", "all+autoid+xhtml+via=6"} {
+	for _, cn := range []string{"core+autoid+via=2", "core+autoid+via=5", "all+autoid+via=5", "core+autoid+via=6", "all+autoid+xhtml+via=6", "core+autoid+via=7", "all+autoid+attr+xhtml+via=7"} {
 		cfg := core.MustCfg(cn)
 		wordsSub(r, "option-channels/"+cn, "automatic heading ids enabled through the channel "+core.Channels[cfg.Via]+": every h1–h6 of the tokenized output carries a non-empty id, all ids pairwise distinct; non-trivial = ≥2 headings, distinct = id-sequence digest",
 			alpha, core.Pick(r, 4, 5), func(s *core.Sub, w int) func([]byte) uint64 {
